@@ -1479,11 +1479,30 @@ def s12b_config_keys(ctx):
     import re
 
     n = 0
+    # the structs a configuration file is decoded into: everything reachable through field types from the root
+    # `conf::Configuration` (key names matter only for self-describing formats; the on-disk records go through
+    # bincode, which is positional — S24 — so a #[serde(rename)] there changes nothing)
+    conf_types = set()
+    todo = ["conf::Configuration"]
+    while todo:
+        t = todo.pop()
+        if t in conf_types or t not in prog.adts:
+            continue
+        conf_types.add(t)
+        for v in prog.adts[t]["variants"]:
+            for _, fty in v["fields"]:
+                for cand in re.findall(r"[A-Za-z_][A-Za-z0-9_]*(?:::[A-Za-z_][A-Za-z0-9_]*)+", fty):
+                    todo.append(cand)
+    if "conf::Configuration" not in conf_types:
+        r.unrec("conf::Configuration", "configuration root type", "src/conf.rs", "not found")
+        return r
     for b in shipped_bodies(prog):
         m = re.match(r"^<(.*)::_::<impl .*Deserialize<'de> for ([A-Za-z0-9_:]+)>::deserialize::__FieldVisitor as .*Visitor<'de>>::visit_str$", b.path)
         if not m:
             continue
         ty = m.group(2)
+        if ty not in conf_types:
+            continue
         adt = prog.adts.get(ty)
         if adt is None or adt.get("is_enum"):
             continue
